@@ -1044,7 +1044,7 @@ def spaces(tier, seed):
     sp.append(Space(
         "edit-then-query",
         _blocked(lambda: M.gen_edits(6), lambda: itertools.chain(M.gen_edits(6, wide=True), M.gen_edits(8)), tier, seed, nb=16),
-        bounds="core: 4 base parts (no / one at 0 / one later / two elements of each kind, two measures, timeline 0..6) queried, then "
+        bounds="core: 6 base parts (no / one at 0 / one later / two elements of each kind; a clef that is the only element of the top staff 2 or 3; two measures, timeline 0..6) queried, then "
                "one edit (add a time signature, key signature, clef on staff 1/2/3 at every position, a note on a new staff, an "
                "appended measure, a note sounding 2 divisions over the final barline, a key signature after it, or remove one "
                "element), then queried again; thorough: every ordered pair of edits (3 phases) and "
